@@ -170,6 +170,7 @@ def combination (n r : BigRat) : R BigRat := do
   div nf (mul rf df)
 
 def permutation (n r : BigRat) : R BigRat := do
+  let _ ← asUint r
   let nf ← factorial n
   let d ← add n (negate r)
   let df ← factorial d
